@@ -484,6 +484,21 @@ void heap_counts(long &a, long &b) { a = g_live_allocs; b = g_live_bytes; }
 
 // ------------------------------------------------------------------ residue snapshots
 extern char **environ;
+static FILE *g_sim_stdout, *g_sim_stderr, *g_saved_stdout, *g_saved_stderr;
+// Is the lock of a stdio stream held (flockfile without funlockfile)? The owner cannot find out with ftrylockfile - the lock is recursive -,
+// so the lock object of glibc is read directly: { int lock; int cnt; void *owner; }. Checked against a stream of our own first; if the layout
+// is not the expected one the question is answered with "no".
+static bool stream_lock_held(FILE *f) {
+    static int layout_ok = -1;
+    auto peek = [](FILE *x) -> bool { const int *l = (const int *)x->_lock; void *const *own = (void *const *)((const char *)x->_lock + 8); return l && (l[1] != 0 || *own != nullptr); };
+    if (layout_ok < 0) {
+        FILE *t = fmemopen(nullptr, 16, "w");
+        if (!t) layout_ok = 0;
+        else { bool a = peek(t); flockfile(t); bool b = peek(t); funlockfile(t); bool c = peek(t); layout_ok = (!a && b && !c) ? 1 : 0; fclose(t); }
+    }
+    if (layout_ok != 1 || !f) return false;
+    return peek(f);
+}
 Snap take_snapshot() {
     SimScope sc;
     Snap s;
@@ -516,6 +531,7 @@ Snap take_snapshot() {
     unsigned um = (unsigned)raw_syscall6(SYS_umask, 022, 0, 0, 0, 0, 0); raw_syscall6(SYS_umask, um, 0, 0, 0, 0, 0);
     s.umask_v = um;
     { const char *l = setlocale(LC_ALL, nullptr); s.locale = l ? l : "?"; }
+    s.stream_locks = (stream_lock_held(g_sim_stdout) ? 1 : 0) | (stream_lock_held(g_sim_stderr) ? 2 : 0);
     uint64_t sh = 1469598103934665603ULL;
     for (int sig = 1; sig < 65; sig++) {
         if (sig == SIGKILL || sig == SIGSTOP || sig == 32 || sig == 33) continue;
@@ -576,7 +592,7 @@ static execv_t p_execv; static execve_t p_execve;
 static void (*p_cli_init)(); static void (*p_cli_exit)();
 static char *(*p_optval)(const char *);
 static int g_probe_seen = 0;
-static FILE *g_sim_stdout, *g_sim_stderr, *g_saved_stdout, *g_saved_stderr;
+
 
 static bool vec_equal(char *const *v, const std::vector<std::string> &snap, bool snap_null, bool hidden, std::string &why, const char *what) {
     if (snap_null) { if (v) { why = std::string(what) + " was NULL, non-NULL handed over"; return false; } return true; }
